@@ -203,9 +203,18 @@ pub trait DSet: Sized {
     }
 
 
+    fn degrees_match_in<T: DSet>(&self, other: &T, d: usize, e: usize) -> bool {
+        (0..self.dim()).all(|i| self.m(i, i + 1, d) == other.m(i, i + 1, e))
+    }
+
+
     fn morphism<T: DSet>(&self, other: &T, img0: usize)
         -> Option<Vec<usize>>
     {
+        if img0 < 1 || img0 > other.size() {
+            return None;
+        }
+
         let mut m = vec![0; self.size() + 1];
         let mut queue = VecDeque::new();
 
@@ -213,10 +222,16 @@ pub trait DSet: Sized {
         queue.push_back((1, img0));
 
         while let Some((d, e)) = queue.pop_front() {
+            // every chamber is queued exactly once, so this compares the
+            // degrees of each chamber with those of its image in `other`
+            if !self.degrees_match_in(other, d, e) {
+                return None;
+            }
+
             for i in 0..=self.dim() {
                 if let Some(di) = self.op(i, d) {
                     if let Some(ei) = other.op(i, e) {
-                        if m[di] == 0 && self.degrees_match(d, e) {
+                        if m[di] == 0 {
                             m[di] = ei;
                             queue.push_back((di, ei));
                         } else if m[di] != ei {
